@@ -256,7 +256,7 @@ def run_cli(argv, stdin=None, env=None, cwd=None, timeout=60):
 def _shard_entry(args):
     func, shard, nshards, seed, tier, extra = args
     signal.signal(signal.SIGINT, signal.SIG_IGN)
-    w = Worker(timeout=extra.get("timeout", 20.0))
+    w = Worker(binary=extra.get("worker_bin"), timeout=extra.get("timeout", 20.0))
     res = ShardResult()
     try:
         func(Ctx(w, shard, nshards, seed, tier, res, extra))
